@@ -232,11 +232,11 @@ func (e *Engine) Verify(name string) (*VC, error) {
 		vc.declare(st.H[s], "(Array Loc "+s+")")
 	}
 	vc.Entry = st
-	vc.assertHeapWF(st, nil)
 	vc.preregisterMaps(fn, 0, map[*ssa.Function]bool{})
 	for _, k := range vc.extraOrder {
 		st.H[k] = k + "_0"
 	}
+	vc.assertHeapWF(st, nil)
 	f := vc.newFrame(fn, spec, true, "true", 0)
 	f.entry = st.Clone()
 	for _, p := range fn.Params {
@@ -272,6 +272,11 @@ func (e *Engine) Verify(name string) (*VC, error) {
 	cov := vc.oblige("cover", "requires", "true", "true", "", "preconditions are satisfiable")
 	cov.ExpectSat = true
 	f.run(st)
+	for i, a := range spec.Asserts {
+		if !f.assertHit[i] {
+			vc.unsupported("spec: assert anchor %q matched no instruction of %s", a.Anchor, name)
+		}
+	}
 	// postconditions at each return
 	for ri, r := range f.rets {
 		penv := f.baseEnv(r.st)
